@@ -580,7 +580,7 @@ def verify_update(ex, contract, timeout_ms=30000, restrict=None, variant=None):
                 paper = E.get(self, "_paper_trade")
                 lastv, flows, lastp = F.get(self, "_last_value"), F.get(self, "_net_flows"), F.get(self, "_last_price")
                 bottom = lastv + flows
-                ob("index:recurrence", Implies(And(rewritten, Not(fi_flag), Not(paper), Not(is_zero(bottom))), value_same(F.get(self, "_price"), lastp * (1 + (Vt / bottom - 1)))), ("C03",))
+                ob("index:recurrence", Implies(And(rewritten, Not(fi_flag), Not(paper), Not(is_zero(bottom))), value_same(F.get(self, "_price"), lastp * (1 + (Vt / bottom - 1)))), ("C03", "C08"))      # C08: otherwise the index depends on where redundant updates fall
                 ob("index:flat-on-zero-base", Implies(And(rewritten, Not(fi_flag), Not(paper), is_zero(bottom)), And(is_zero(Vt), value_same(F.get(self, "_price"), lastp))), ("C03", "C10"))
                 ob("index:unchanged-when-not-rewritten", Implies(And(Not(rewritten), Not(paper)), value_same(F.get(self, "_price"), E.get(self, "_price"))), ("C03", "C08"))
                 pnl = Vt - bottom
